@@ -230,6 +230,17 @@ def check_recorded(env, m, rec, backend, tag, spec):
                   signature=tag + ":mosek-vars")
 
 
+def _declarations(pep, Function):
+    """the lists a user fills: PEP-level constraints / LMIs / metrics / points, every function's own constraints / LMIs"""
+    d = {'pep.list_of_constraints': list(pep.list_of_constraints), 'pep.list_of_psd': list(pep.list_of_psd),
+         'pep.list_of_performance_metrics': list(pep.list_of_performance_metrics),
+         'pep.list_of_functions': list(pep.list_of_functions), 'pep.list_of_points': list(pep.list_of_points)}
+    for i, f in enumerate(Function.list_of_functions):
+        d['function%d.list_of_constraints' % i] = list(f.list_of_constraints)
+        d['function%d.list_of_psd' % i] = list(f.list_of_psd)
+    return d
+
+
 class _StopAfterRecording(Exception):
     pass
 
@@ -244,6 +255,8 @@ def prog_model(env, case):
     elif backend == 'mosek':
         pipeline.enable_mosek_emulator()
     m = pipeline.build(pipeline.ConcreteParamsEnv(env) if spec.get('concrete_params') else env, spec)
+    from PEPit import Function as _Function
+    declared_before = _declarations(m.pep, _Function)
     if spec.get('record_only') and env.sym:
         # large models: only the problem handed over matters here - stop at the solver call
         import cvxpy
@@ -270,6 +283,12 @@ def prog_model(env, case):
     else:
         rec = rows_from_real_cvxpy(w)
     check_recorded(env, m, rec, backend, tag, spec)
+    # sending the model must not edit it: the user's declaration lists hold the same objects as before the solve
+    after = _declarations(m.pep, _Function)
+    changed = [k for k in declared_before if k not in after or len(after[k]) != len(declared_before[k])
+               or any(a is not b for a, b in zip(after[k], declared_before[k]))]
+    env.check(not changed, "solve() changed the user's declaration lists: %s"
+              % [(k, len(declared_before[k]), len(after.get(k, []))) for k in changed[:3]], signature=tag + ":declarations-edited")
     return "rows=%d" % len(rec['rows'])
 
 
